@@ -42,6 +42,19 @@ Definition ref_bparams : bparams :=
 Definition ref_rows (W : nat) (files : list afile) : list row := all_rows (fun _ => ref_aparams) W files.
 Definition ref_report (W k : nat) (files : list afile) : list viol := pipeline (fun _ => ref_aparams) ref_bparams W k files.
 
+(* suppression as documented (docs/dry-linter.md "Ignoring Violations", how-to-ignore-violations.md): a violation is
+   dropped when its file path contains a dry.ignore pattern, when an ignore-file directive stands in the first 10
+   lines, when its first line carries `thailint: ignore dry`, follows an ignore-next-line line or lies inside an
+   ignore-start .. ignore-end block; undocumented but present: `# dry: ignore-block` covers the 10 lines after it,
+   `# dry: ignore-next` the next line, and a violation is dropped when its block meets such a range. *)
+Definition ref_sparams : sparams :=
+  {| s_block_off := 1; s_block_len := 10; s_next_off := 1;
+     s_range_overlap := fun line end_line ign_start ign_end => (line <=? ign_end) && (ign_start <=? end_line);
+     s_viol_end := fun start count => start + count - 1; s_header_lines := 10 |}.
+Definition ref_suppressed := suppressed ref_sparams.
+Definition ref_final (W k : nat) (patterns paths : list string) (files : list afile) : list viol :=
+  unsuppressed ref_sparams patterns paths files (ref_report W k files).
+
 (* ------------------------------------------------------------------ the text at a location *)
 Definition ref_stream (f : afile) : list (nat * string) := tokenize ref_aparams (f_lines f).
 Definition in_range (s e : nat) (p : nat * string) : bool := (s <=? fst p) && (fst p <=? e).
@@ -90,6 +103,28 @@ Definition complete (rows : list row) (k : nat) (R : list viol) : Prop :=
       exists p, In p rows /\ r_snip p = s /\ r_file p = r_file r /\ r_start p <= r_end r /\ r_start r <= r_end p /\
                 covered R (r_file p) (r_start p) (r_end p).
 
+(* ------------------------------------------------------------------ clauses in the presence of suppression *)
+(* a location is excused when a stored window of its file that meets it would, reported as a violation, be suppressed *)
+Definition row_meets (f s e : nat) (r : row) : bool := (r_file r =? f) && (r_start r <=? e) && (s <=? r_end r).
+Definition row_suppressed (patterns paths : list string) (files : list afile) (r : row) : bool :=
+  ref_suppressed patterns paths files (r_file r) (r_start r) (r_end r - r_start r + 1).
+Definition excused (patterns paths : list string) (files : list afile) (rows : list row) (f s e : nat) : Prop :=
+  exists r, In r rows /\ row_meets f s e r = true /\ row_suppressed patterns paths files r = true.
+Definition excused_b (patterns paths : list string) (files : list afile) (rows : list row) (f s e : nat) : bool :=
+  existsb (fun r => if row_meets f s e r then row_suppressed patterns paths files r else false) rows.
+
+(* S3 with its exception: every named location is covered by a reported violation unless it is suppressed *)
+Definition mutual_s (patterns paths : list string) (files : list afile) (rows : list row) (R : list viol) : Prop :=
+  forall v, In v R -> forall f s e, In (f, s, e) (v_refs v) -> covered R f s e \/ excused patterns paths files rows f s e.
+Definition complete_s (patterns paths : list string) (files : list afile) (rows : list row) (k : nat) (R : list viol) : Prop :=
+  forall s ps, disjoint_occurrences rows s ps -> k <= List.length ps ->
+    forall r, In r rows -> r_snip r = s ->
+      exists p, In p rows /\ r_snip p = s /\ r_file p = r_file r /\ r_start p <= r_end r /\ r_start r <= r_end p /\
+                (covered R (r_file p) (r_start p) (r_end p) \/ excused patterns paths files rows (r_file p) (r_start p) (r_end p)).
+(* nothing suppressed is reported *)
+Definition silent (patterns paths : list string) (files : list afile) (R : list viol) : Prop :=
+  forall v, In v R -> v_suppressed ref_sparams patterns paths files v = false.
+
 (* ------------------------------------------------------------------ clauses (bool, evaluated by the judge) *)
 (* written with explicit `if` (the VM is call-by-value: `a && b` would always evaluate b) and with the
    per-file streams computed once *)
@@ -111,6 +146,12 @@ Definition sound_b (files : list afile) (W : nat) (R : list viol) : bool :=
 Definition mutual_b (R : list viol) : bool :=
   forallb (fun v => forallb (fun r => let '(f, s, e) := r in covered_b R f s e) (v_refs v)) R.
 
+Definition mutual_sb (patterns paths : list string) (files : list afile) (rows : list row) (R : list viol) : bool :=
+  forallb (fun v => forallb (fun r => let '(f, s, e) := r in
+                                      if covered_b R f s e then true else excused_b patterns paths files rows f s e) (v_refs v)) R.
+Definition silent_b (patterns paths : list string) (files : list afile) (R : list viol) : bool :=
+  forallb (fun v => negb (v_suppressed ref_sparams patterns paths files v)) R.
+
 (* the left-to-right maximal choice is a largest one (Proofs/DryGreedy.v), so the executable count is
    the length of `places` *)
 Definition count_b (rows : list row) (R : list viol) : bool :=
@@ -118,7 +159,28 @@ Definition count_b (rows : list row) (R : list viol) : bool :=
              if (r_file b =? v_file v) && (r_start b =? v_line v) && (r_end b =? v_end v)
              then v_occ v =? List.length (places ref_bparams (r_snip b) rows) else false) rows) R.
 
+Definition complete_sb (patterns paths : list string) (files : list afile) (rows : list row) (k : nat) (R : list viol) : bool :=
+  forallb (fun s => let ps := places ref_bparams s rows in
+             if k <=? List.length ps
+             then forallb (fun p => if covered_b R (r_file p) (r_start p) (r_end p) then true
+                                    else excused_b patterns paths files rows (r_file p) (r_start p) (r_end p)) ps
+             else true)
+          (dup_snips ref_bparams rows).
+
 Definition complete_b (rows : list row) (k : nat) (R : list viol) : bool :=
   forallb (fun s => let ps := places ref_bparams s rows in
              if k <=? List.length ps then forallb (fun p => covered_b R (r_file p) (r_start p) (r_end p)) ps else true)
           (dup_snips ref_bparams rows).
+
+(* ------------------------------------------------------------------ well-formedness of stored rows, executable *)
+(* consecutive rows are ordered by (file, start) and, inside one file, their ends increase; every row has start <= end.
+   Proofs/DryOracle.v: rows_okb rows = true -> rows_ok rows (the hypothesis of the stage-B theorems). *)
+Definition row_stepb (a b : row) : bool :=
+  ((r_file a <? r_file b) || ((r_file a =? r_file b) && (r_start a <? r_start b) && (r_end a <? r_end b))).
+Fixpoint chainb (l : list row) : bool :=
+  match l with
+  | a :: ((b :: _) as t) => if row_stepb a b then chainb t else false
+  | _ => true
+  end.
+Definition rows_okb (rows : list row) : bool :=
+  if forallb (fun r => r_start r <=? r_end r) rows then chainb rows else false.
